@@ -42,8 +42,8 @@ HARNESSES = [
     Harness('arena', 'h_arena_string', unwind=27, unwindset=arena_loops(3), bounds='one 128-byte block with 24 bytes left; ArenaString<16>, 24 symbolic characters, size in {0,5,11,12,24} explicit or {0,5,11,12} by strlen', mem_gb=4, timeout=600),
     Harness('arena', 'h_arena_pool', unwind=5, bounds=B_ONE + '; 0..2 pooled items; alloc or release+alloc', mem_gb=4, timeout=600),
     Harness('nodes', 'h_list_step', unwind=8, bounds='any list of 0..4 of 4 nodes in any order; one of append/prepend/insert_after/insert_before/unlink/pop_first/pop at any position, then swap', mem_gb=3, timeout=600),
-    Harness('nodes', 'h_tree_insert_d2', unwind=17, unwindset=tree_loops(5), bounds='any valid red-black tree of 0..3 nodes (height <= 2), symbolic distinct 32-bit keys and colours; insert of any new key, then lookup of any key', mem_gb=6, timeout=900),
-    Harness('nodes', 'h_tree_remove_d2', unwind=17, unwindset=tree_loops(5), bounds='any valid red-black tree of 1..3 nodes (height <= 2); remove of any node', mem_gb=6, timeout=900),
+    Harness('nodes', 'h_tree_insert_d2', unwind=17, unwindset=tree_loops(5), rotate=(0, 2), bounds='any valid red-black tree of 0..3 nodes (height <= 2), symbolic distinct 32-bit keys and colours; insert of any new key, then lookup of any key (quick tier: when VERIF_SEED is even)', mem_gb=5, timeout=900),
+    Harness('nodes', 'h_tree_remove_d2', unwind=17, unwindset=tree_loops(5), rotate=(1, 2), bounds='any valid red-black tree of 1..3 nodes (height <= 2); remove of any node (quick tier: when VERIF_SEED is odd)', mem_gb=7, timeout=900),
     Harness('nodes', 'h_tree_insert_d3', unwind=33, unwindset=tree_loops(6), tiers=('thorough',), bounds='any valid red-black tree of 0..5 nodes (height <= 3); insert of any new key, then lookup of any key', mem_gb=8, timeout=3000),
     Harness('nodes', 'h_tree_remove_d3', unwind=33, unwindset=tree_loops(6), tiers=('thorough',), bounds='any valid red-black tree of 1..5 nodes (height <= 3); remove of any node', mem_gb=8, timeout=3000),
 ] + [
